@@ -331,6 +331,56 @@ theorem cdc_fifo_correct_depth32 (es : List Ev) :
     res.2.2 = res.2.1.take res.2.2.length ∧ res.2.2.length ≤ res.2.1.length ∧ res.2.1.length - res.2.2.length ≤ 2 ^ 5 :=
   cdc_fifo_correct 5 grayOK_5 es
 
+/-! ### the port: LiteDRAMNativePortCDC is three such FIFOs, one per channel -/
+
+/-- one instant of the port -/
+structure PEv where
+  u : Bool                  -- the user clock rises
+  y : Bool                  -- the controller clock rises
+  iu : PortCdc.UIn
+  iy : PortCdc.SIn
+
+def prun (c : PortCdc.Cfg) : PortCdc.State → List PEv → PortCdc.State
+  | s, [] => s
+  | s, e :: es => prun c (PortCdc.tick c s e.u e.y e.iu e.iy) es
+
+/-- the three channels of the port, seen as FIFO schedules -/
+def cmdEv (e : PEv) : Ev := ⟨e.u, e.y, e.iu.cmdValid, e.iu.cmd, e.iy.cmdReady⟩
+def wEv (e : PEv) : Ev := ⟨e.u, e.y, e.iu.wValid, e.iu.w, e.iy.wReady⟩
+def rEv (e : PEv) : Ev := ⟨e.y, e.u, e.iy.rValid, e.iy.r, e.iu.rReady⟩
+
+theorem prun_channels (c : PortCdc.Cfg) (es : List PEv) (s : PortCdc.State) :
+    (prun c s es).cmd = (run c.kCmd s.cmd (es.map cmdEv)).1 ∧
+    (prun c s es).wdata = (run c.kW s.wdata (es.map wEv)).1 ∧
+    (prun c s es).rdata = (run c.kR s.rdata (es.map rEv)).1 := by
+  induction es generalizing s with
+  | nil => simp [prun, run]
+  | cons e es ih =>
+    have := ih (PortCdc.tick c s e.u e.y e.iu e.iy)
+    simpa [prun, run, PortCdc.tick, cmdEv, wEv, rEv] using this
+
+/-- **The CDC port, every schedule.** Whatever the two clocks do and whatever both sides present, each of the three
+channels of LiteDRAMNativePortCDC (commands and write data towards the controller, read data back) delivers exactly
+the words it accepted, once and in order; memory semantics as seen through the port are therefore those of the port
+behind it. (Depths 4/16/16 are the defaults; any depths with the gray facts established work.) -/
+theorem portcdc_correct (c : PortCdc.Cfg) (hc : GrayOK c.kCmd) (hw : GrayOK c.kW) (hr : GrayOK c.kR) (es : List PEv) :
+    let rc := run c.kCmd (State.init c.kCmd) (es.map cmdEv)
+    let rw := run c.kW (State.init c.kW) (es.map wEv)
+    let rr := run c.kR (State.init c.kR) (es.map rEv)
+    rc.2.2 = rc.2.1.take rc.2.2.length ∧ rw.2.2 = rw.2.1.take rw.2.2.length ∧ rr.2.2 = rr.2.1.take rr.2.2.length ∧
+    (prun c (PortCdc.State.init c) es).cmd = rc.1 ∧ (prun c (PortCdc.State.init c) es).wdata = rw.1 ∧
+    (prun c (PortCdc.State.init c) es).rdata = rr.1 := by
+  have h := prun_channels c es (PortCdc.State.init c)
+  exact ⟨(cdc_fifo_correct c.kCmd hc _).1, (cdc_fifo_correct c.kW hw _).1, (cdc_fifo_correct c.kR hr _).1, h.1, h.2.1, h.2.2⟩
+
+/-- the depths LiteDRAMNativePortCDC uses by default: commands 4, write data 16, read data 16 -/
+theorem portcdc_correct_default (es : List PEv) :
+    let rc := run 2 (State.init 2) (es.map cmdEv)
+    let rw := run 4 (State.init 4) (es.map wEv)
+    let rr := run 4 (State.init 4) (es.map rEv)
+    rc.2.2 = rc.2.1.take rc.2.2.length ∧ rw.2.2 = rw.2.1.take rw.2.2.length ∧ rr.2.2 = rr.2.1.take rr.2.2.length :=
+  ⟨(cdc_fifo_correct 2 grayOK_2 _).1, (cdc_fifo_correct 4 grayOK_4 _).1, (cdc_fifo_correct 4 grayOK_4 _).1⟩
+
 /-! ### non-vacuity: a concrete schedule with coincident and separate edges -/
 example : (run 2 (State.init 2) [⟨true, false, true, 7, false⟩, ⟨true, true, true, 8, true⟩, ⟨false, true, false, 0, true⟩,
     ⟨true, true, false, 0, true⟩, ⟨false, true, false, 0, true⟩, ⟨false, true, false, 0, true⟩]).2 = ([7, 8], [7, 8]) := by decide
